@@ -105,6 +105,10 @@ function bn.from(v)
         return 0.0/0.0, 10
       else -- should be a decimal number
         local n = bn.parse(v)
+        local digits = bn.isbint(n) and v:match('^0*(%d+)$')
+        if digits and bn.todecint(n) ~= digits then -- does not fit a big number? read it as a float (like Lua)
+          n = tonumber(v)
+        end
         assert(n, 'malformed number')
         return n, 10
       end
